@@ -34,6 +34,13 @@ Theorem C07_direction_sound : forall p old n ref ang,
 Proof. exact direction_sound. Qed.
 Print Assumptions C07_direction_sound.
 
+(* the direction test is handed the end of the step before wrapping, old + v * s: what it tests is the step vector itself *)
+Theorem C07_direction_of_the_step : forall old v s n ref ang,
+  is_restricted_tail (vadd old (vscale_r v s)) old n ref ang = true ->
+  nsign (s * vdot n v) = nsign ref /\ ang <= Rabs ref.
+Proof. exact direction_of_the_step. Qed.
+Print Assumptions C07_direction_of_the_step.
+
 (* (T) every position added by the walk passed the geometric, milestone and direction tests; the direction test is made
    on the step itself, last_point + vector * step_length, not on the new point after it was wrapped into the box *)
 Theorem C07_restraints_guard_placement :
